@@ -16,6 +16,7 @@ import (
 	"verifharness/enc/ev"
 	"verifharness/gen"
 	"verifharness/hist"
+	"verifharness/run"
 )
 
 // C09 — rows events are split into exactly the encoded rows and images.
@@ -478,7 +479,7 @@ func c09Verify(c *core.Ctx, e *c09Ev, st *c09Stats) bool {
 				} else if ok, why := bjson.Equal(exp.JSON[ci], n); !ok {
 					fail("cell-text:"+tn, fmt.Sprintf("%s image, column %d: JSON differs at %s; got %q", side, col, why, c09ClipS(data)), nil)
 				}
-			} else if data == nil || !bytes.Equal(data, exp.Texts[ci]) {
+			} else if data == nil || (!bytes.Equal(data, exp.Texts[ci]) && !((cc.Type == 4 || cc.Type == 5) && run.SameFloat(data, exp.Texts[ci], cc.Type == 4))) {
 				fail("cell-text:"+tn, fmt.Sprintf("%s image, column %d (%s meta=%d): decoded %q (nil=%v), want %q", side, col, tn, cc.Meta, c09ClipS(data), data == nil, c09ClipS(exp.Texts[ci])),
 					map[string]interface{}{"column": col, "got_hex": c09Clip(data), "want_hex": c09Clip(exp.Texts[ci])})
 			}
